@@ -75,6 +75,13 @@ def make_spec(seed, rng, k=None, mode=None, N=None, v=None):
             if rng.random() < 0.6:
                 plan.append({'site': 'channel', 'ident': lf, 'a': 'stall',
                              'pos': rng.randint(0, 40), 'dt': rng.choice([0.005, 0.5, 20.0])})
+    if opt['j'] == 1:
+        # -j1 only has children when a layer cannot be torn down: that is the run that uses
+        # the immediate collector (the baseline runs without this fault)
+        cands = [L['name'] for L in world['layers'] if m.has_hook(L['name'], 'tearDown')]
+        if cands:
+            plan.append({'site': 'layer.tearDown', 'ident': rng.choice(cands), 'a': 'raise',
+                         'exc': 'NotImplementedError', 'where': 'parent', 'nie': True})
     knobs = {'pipe_capacity': rng.choice([16, 64, 512, 65536])}
     return {'property': ID, 'seed': seed, 'world': world, 'plan': _ws.order_plan(plan),
             'opt': opt, 'sched': sched, 'knobs': knobs, 'mode': mode}
@@ -138,7 +145,8 @@ def run(spec, ctx):
     opt = spec['opt']
     N = opt.get('j') or 1
     base_opt = {k: v for k, v in opt.items() if k != 'j'}
-    spec0 = dict(spec, opt=base_opt, plan=[e for e in spec['plan'] if e['site'] != 'channel'])
+    spec0 = dict(spec, opt=base_opt, plan=[e for e in spec['plan']
+                                           if e['site'] != 'channel' and not e.get('nie')])
     base = core.execute(spec0, W.argv(base_opt, src), sched_mode={'prng': 0}, label='baseline')
     par = core.execute(spec, W.argv(opt, src), label='parallel')
     T0 = TR.Truth(m, base.trace)
@@ -170,7 +178,14 @@ def run(spec, ctx):
         ptext = KEEPALIVE_RE.sub('', ptext)
         base_order = [x for x in C.RUNNING_RE.findall(base.text)]
         if par.children:
-            kids = {c['layer']: child_stdout(t) for c, t in zip(par.children, par.child_tapes)}
+            if N == 1:
+                # the immediate collector relays everything, dot lines included
+                kids = {c['layer']: b''.join(p for t_, p in t if t_ == 'O').decode('utf-8',
+                                                                                    'replace')
+                        for c, t in zip(par.children, par.child_tapes)}
+            else:
+                kids = {c['layer']: child_stdout(t)
+                        for c, t in zip(par.children, par.child_tapes)}
             order = [l for l in base_order if l in kids]
             if sorted(order) != sorted(kids):
                 viols.append(C.viol('C06/children-vs-layers',
